@@ -75,6 +75,16 @@ def check(sess, op, rec=None, after_reopen=False):
                 raise Violation("C20:reported-parent-chain-wrong", f"{where}: {epn}: {pub_pp}", exp_pp)
             if toc[ref] != js:
                 raise Violation("C20:reported-jsonschema-differs-from-embedded", f"{where}: {epn}", "schemas[ref] == embedded")
+            if toc.get(ref) != js or ref not in toc:
+                raise Violation("C20:reported-jsonschema-differs-from-embedded:get", f"{where}: {epn}: schemas.get(ref) -> "
+                                f"{'None' if toc.get(ref) is None else 'something else'}, ref in schemas -> {ref in toc}", "the embedded schema, like schemas[ref]")
+            unused = schemas.PluginRef(name="verif.nope", version=(9, 9, 9))
+            try:
+                nothing = toc.get(unused)
+            except Exception as e:  # noqa: BLE001
+                raise Violation("C20:schemas-get-raises-for-unused", f"{where}: {type(e).__name__}: {e}", "None")
+            if nothing is not None or unused in toc:
+                raise Violation("C20:schemas-reports-unused-schema", f"{where}: {nothing!r}", "None")
             # provider
             env = schemas.provider(ref)
             provs = [(k, v) for k, v in a["packages"].items() if any(
